@@ -590,6 +590,41 @@ func c15WriteDeadlineCase(c *Ctx) *Result {
 			}
 		}
 	}
+	// UDP: an application that polls with a short deadline per call keeps writing
+	// small pieces: every call is bounded, the accepted pieces pile up in the
+	// send queue until it is full and calls start to fail outright
+	if sig == "" && udp && stall == "peer-not-reading" && rngFor(c.Seed, "C15w-roll", c.Idx).Intn(2) == 0 {
+		piece := make([]byte, 1+r.Intn(1000))
+		fails := 0
+		rollDone := make(chan struct{})
+		var slow time.Duration
+		go func() {
+			defer close(rollDone)
+			for calls := 0; calls < 9000 && fails < 40; calls++ {
+				fillStream(wkey, woff, piece)
+				t0 := time.Now()
+				conn.SetWriteDeadline(t0.Add(5 * time.Millisecond))
+				n, err := conn.Write(piece)
+				woff += int64(n)
+				if d := time.Since(t0); d > slow {
+					slow = d
+				}
+				if err != nil {
+					fails++
+				}
+			}
+		}()
+		select {
+		case <-rollDone:
+			res.Obs["rolling_deadline_runs"]++
+			if isVirtual && slow > time.Second+100*time.Millisecond {
+				sig, detail = "write-timeout-late|rolling", fmt.Sprintf("a Write with a 5 ms deadline took %.2f s", slow.Seconds())
+			}
+		case <-time.After(600 * time.Second):
+			sig, detail = "write-not-bounded-by-deadline|rolling-deadline", "a series of small writes, each with a 5 ms deadline, did not end within 600 s"
+		}
+		params["rolling_deadline"] = true
+	}
 	// UDP: the peer starts reading after all; what Write accepted (timed-out calls
 	// included) and what is written afterwards must arrive intact and in order
 	if sig == "" && udp && stall == "peer-not-reading" {
